@@ -676,7 +676,7 @@ pub fn run_c10(ctx: &Ctx) -> i32 {
     let limit: u32 = 1024;
     // grid: thorough = all, quick = all opcodes x a seeded 5% sample of the other dimensions
     let per_op = GRID / 256;
-    let sample_every: u64 = 1;
+    let sample_every: u64 = if ctx.prop == "C10" { 1 } else { 8 };
     let n_other = if miri { 40 } else { ctx.n(200_000, 1_000_000) };
     let next = AtomicU64::new(0);
     let progress = AtomicU64::new(0);
